@@ -35,7 +35,7 @@ CLAIM = (
     "training and validation are disjoint and cover all patterns, len() and val_len() equal the number of batches yielded. On a real tiny "
     "ptychography problem, for every one of the 24 visiting orders of 4 patterns (and a family of orders for 12) and every divisor batch "
     "size, the mean of per-batch losses and gradients equals the full-batch values for all four loss types, also through the real "
-    "reconstruct() loop; equal seeds give bit-identical loss histories, reset repeats them, different seeds differ."
+    "reconstruct() loop, also with a grid or random validation split (epoch loss == loss over the training set, validation loss == loss over the validation set); equal seeds give bit-identical loss histories, a reset run repeats the fresh history after EVERY history of continue/reset calls up to depth 2/3 (with and without validation), different seeds differ."
 )
 NOTE = (
     "Trusted: the Generator subclass really is what the library draws its orders from (checked: the yielded order equals the prescribed "
